@@ -279,6 +279,9 @@ func c09(r *rep.Run) {
 			opjob{"and flat", "(and " + rep1("t", k-1) + " f)", k, k, false, true},
 			opjob{"or flat", "(or " + rep1("f", k-1) + " t)", k, k, true, true},
 			opjob{"&& flat all true", "(&& " + rep1("t", k) + ")", k, k, true, true},
+			opjob{"xor flat last true", "(xor " + rep1("f", k-1) + " t)", k, k, true, false},
+			opjob{"xor flat all true", "(xor " + rep1("t", k) + ")", k, k, k%2 == 1, false},
+			opjob{"sub flat", "(- " + rep1("x", k) + ")", k, k, int64(2 - k), false},
 		)
 		// nested groups that flatten to k operands
 		for _, a := range []int{2, 60, 100, 127} {
@@ -315,7 +318,7 @@ func c09(r *rep.Run) {
 		}
 		ojobs = append(ojobs, opjob{"and groups far", "(not (and " + strings.Join(groups, " ") + "))", k, 127, false, true})
 	}
-	evModes := []int{0, 1, 2}
+	evModes := []int{0, 1, 2, 3} // 3 = ReportEvent and Debug both set (instrumented once)
 	r.ParallelFor(len(ojobs), func(w, i int) {
 		j := ojobs[i]
 		h := hs[w]
